@@ -468,6 +468,15 @@ func check(id, tier string) int {
 		base := int64(1) << 40
 		jobs = append(jobs, job{sc.race, base + int64(i)*rper, base + int64(i+1)*rper, true})
 	}
+	var knownSigs []string
+	for _, k := range loadKnown() {
+		if k.Property == id && k.Status == "open" {
+			knownSigs = append(knownSigs, k.Signature)
+		}
+	}
+	kb, _ := json.Marshal(knownSigs)
+	knownFile := filepath.Join(sc.dir, "known.json")
+	os.WriteFile(knownFile, kb, 0o644)
 	results := make([]workerResult, len(jobs))
 	troubles := make([]string, len(jobs))
 	var wg sync.WaitGroup
@@ -477,7 +486,7 @@ func check(id, tier string) int {
 			defer wg.Done()
 			hf := filepath.Join(sc.dir, fmt.Sprintf("hashes.%d", i))
 			cmd := exec.Command(j.bin, "-prop", id, "-seed", strconv.FormatInt(seed, 10), "-from", strconv.FormatInt(j.from, 10), "-to", strconv.FormatInt(j.to, 10),
-				"-tier", tier, "-budget", budget.String(), "-out", replayDir, "-hashes", hf)
+				"-tier", tier, "-budget", budget.String(), "-out", replayDir, "-hashes", hf, "-known", knownFile)
 			cmd.Env = append(os.Environ(), "GORACE=halt_on_error=0 exitcode=0")
 			var o, e bytes.Buffer
 			cmd.Stdout, cmd.Stderr = &o, &e
